@@ -145,9 +145,9 @@ func lockOp(i ssa.Instruction) (obj types.Object, acquire bool, mode LockMode, o
 // Locks is the result of the lockset analysis.
 type Locks struct {
 	p     *Prog
-	Entry map[*ssa.Function]LockSet                // locks definitely held on entry
-	In    map[*ssa.BasicBlock]LockSet              // at block entry
-	at    map[ssa.Instruction]LockSet              // before instruction (lazily filled)
+	Entry map[*ssa.Function]LockSet   // locks definitely held on entry
+	In    map[*ssa.BasicBlock]LockSet // at block entry
+	at    map[ssa.Instruction]LockSet // before instruction (lazily filled)
 	funcs map[*ssa.Function]bool
 	// Acquires: functions that (transitively) acquire a given mutex
 	callersOf map[*ssa.Function][]CallSite
